@@ -406,6 +406,7 @@ package restful
 //@ requires req: httpRequest != nil && httpRequest.URL != nil
 //@ requires services: forall(0, len(webServices), func(i int) bool { return svcOK(webServices[i]) })
 //@ ensures found: err == nil ==> selected != nil && selectedService != nil && wfRouteFns(selected) && wfServiceFns(selectedService)
+//@ ensures template: err == nil ==> wfTemplate(selected.pathParts, selected.hasCustomVerb)
 //@ ensures fresh: err == nil ==> fresh(selected)
 //@ ensures admitted: err == nil && TrimRightSlashEnabled ==> routeAdmits(selected, httpRequest)
 //@ ensures member: err == nil ==> exists(0, len(webServices), func(i int) bool { return webServices[i] == selectedService && exists(0, len(selectedService.routes), func(k int) bool { return same(*selected, selectedService.routes[k]) }) })
@@ -473,6 +474,7 @@ package restful
 //@ requires crw: !isCRW(httpWriter) || httpWriter.(*CompressingResponseWriter) != nil
 //@ requires services: forall(0, len(c.webServices), func(i int) bool { return svcOK(c.webServices[i]) })
 //@ requires distinct: !same(hdrOf(httpWriter), httpRequest.Header)
+//@ requires strategy: TrimRightSlashEnabled
 //@ opt opaque svcOK validCRW ctAdmits acceptAdmits pathAdmitsP noEmptyEntry wfTemplate
 //@ modifies httpWriter.(*CompressingResponseWriter).compressor, headers, ghost $trace, ghost $g.held, ghost $g.ztarget, ghost $g.zclosed, ghost $g.accepted, ghost $g.lasterr, ghost $g.wcalls, ghost $g.wstatus, ghost $g.whcalls, ghost $g.own.closes
 //@ ensures lock-balance: servicesLock(c) == 0
@@ -484,6 +486,10 @@ package restful
 // C07: dispatch installs a coding only if enabled for this request, asked for, and not already encoded
 //@ ensures installed: isCRW(writer) && !isCRW(httpWriter) ==> err == nil && encodingEnabledFor(c, route) && strings.Contains(old(httpRequest.Header.Get("Accept-Encoding")), writer.(*CompressingResponseWriter).encoding) && old(hdrOf(httpWriter).Get("Content-Encoding")) == ""
 //@ ensures untouched: !isCRW(writer) ==> writer == httpWriter
+// C07: the route's own setting overrides the container's. Proved when dispatch is the outermost entry point;
+// when the writer was already wrapped by ServeHTTP the override cannot take effect any more (finding D14).
+//@ ensures override: !isCRW(httpWriter) && err == nil && route.contentEncodingEnabled != nil && !*route.contentEncodingEnabled ==> !isCRW(writer)
+//@ ensures override-nested: isCRW(httpWriter) && err == nil && route.contentEncodingEnabled != nil && !*route.contentEncodingEnabled ==> !isCRW(writer)
 // C01: a route function is called only as the function of the selected route, with the request wrapper that names that route
 //@ callsite RouteFunction admitted: TrimRightSlashEnabled ==> routeAdmits(route, httpRequest)
 //@ callsite RouteFunction selected: err == nil && same(callee, route.Function) && arg0 == wrappedRequest && wrappedRequest.selectedRoute == route && arg1 == wrappedResponse && wrappedResponse.ResponseWriter == writer
